@@ -25,10 +25,10 @@ RULE = ("segment ASTs of every kind (keys/terms over letters, digits and each es
 ASSUMPTIONS = ["renderings whose meaning the README does not fix are not generated: a quote inside the other kind of quote, "
                "* inside keys, regex terms containing every candidate delimiter, the empty key",
                "segment equality is judged on the escaped segments: kind + text/index + search terms + keyword parameters + collector operator and inner path"]
-REACH = [("yamlpath/yamlpath.py", 83, 175, "__eq__/__add__/append/pop"),
-         ("yamlpath/yamlpath.py", 330, 960, "_parse_path/_expand_splats/_stringify"),
-         ("yamlpath/path/searchterms.py", 48, 75, "SearchTerms.__str__"),
-         ("yamlpath/path/searchkeywordterms.py", 56, 139, "SearchKeywordTerms.parameters")]
+REACH = [("yamlpath/yamlpath.py", "__eq__,__add__,append,pop", "__eq__/__add__/append/pop"),
+         ("yamlpath/yamlpath.py", "_parse_path,_expand_splats,_stringify_yamlpath_segments", "_parse_path/_expand_splats/_stringify"),
+         ("yamlpath/path/searchterms.py", "__str__", "SearchTerms.__str__"),
+         ("yamlpath/path/searchkeywordterms.py", "parameters", "SearchKeywordTerms.parameters")]
 EXHAUSTIVE_NOTE = "all segment sequences of length <=2 over the reduced segment list (thorough tier)"
 SIZES = {"quick": dict(grid_stride=6, rnd=60000), "thorough": dict(grid_stride=1, rnd=1500000)}
 REQUIRED_COUNTERS = ["parse_checked", "canonical_checked", "eq_checked", "append_pop_checked"]
